@@ -17,8 +17,10 @@
    scalar float as a Python float (binary64) and rounds it only when struct.pack('<e'|'<f') is called - for values that are not
    binary32-representable that rounding step lies outside this model (the harness value generator only produces binary32
    patterns); arrays are rounded by NumPy on assignment.  The generated setters REJECT (ValueError) integers outside the wire range
-   and finite floats outside the wire range whatever the cast mode, and arrays above the capacity: the objects the serializer
-   ever sees satisfy `Codec/PyAccept.v py_accepts`, on which the saturation / length-assert branches are dead.
+   and finite floats outside the wire range whatever the cast mode, and arrays above the capacity (`Codec/PyAccept.v py_accepts`).
+   That holds at ASSIGNMENT; array fields keep a reference to the caller's ndarray, so in-place writes can put any value of the NumPy
+   dtype into an element afterwards: the saturating / truncating branch of the element loop is reachable for non-standard widths
+   (PyAccept.v `py_elem_reachable`, `py_saturation_live_example`); the theorems here have no value proviso and cover it.
    The chunk handed to the Serializer for a primitive field is a PARAMETER `lf` (the leaf): Codec/PyLeaf.v `py_leaf_bits` models
    the Python-level conversions explicitly (`max(min(..))` saturation, two's complement by the support functions, struct.pack with
    round-half-EVEN float16); with `lf := Wire.enc_prim` the walker hands over the specification's own encoding (used as the
